@@ -99,14 +99,15 @@ Upsert(S, row) == {r \in S : ~(r.title = row.title /\ r.ns = row.ns)} \cup {row}
 (* ------------------------------------------------------------------ *)
 StartsWith(t, a) == Len(t) > 0 /\ t[1] = a
 
-NormAdd(title, ns) ==
-  LET t1 == IF ns # 0 /\ ns # NoNs /\ HasCanon(ns) /\ ~StartsWith(title, CanonPfx[NsKey(ns)])
-            THEN <<CanonPfx[NsKey(ns)]>> \o title
+NormAddP(title, ns, canon) ==
+  LET t1 == IF ns # 0 /\ ns # NoNs /\ NsKey(ns) \in DOMAIN canon /\ ~StartsWith(title, canon[NsKey(ns)])
+            THEN <<canon[NsKey(ns)]>> \o title
             ELSE title
       \* deviation kept for C12: "Main:" is stripped whatever the namespace is
       t2 == IF StartsWith(t1, "Main:") /\ ("MainPrefixStrippedOnAdd" \in Dev)
             THEN Tail(t1) ELSE t1
   IN t2
+NormAdd(title, ns) == NormAddP(title, ns, CanonPfx)
 
 (* ------------------------------------------------------------------ *)
 (* get_page: normalisation on the read side (core.py:1774-1838)        *)
@@ -185,10 +186,11 @@ Resolve(title, ns) ==
   ELSE g1
 
 (* actions ----------------------------------------------------------- *)
-AddPage(title, ns, redirect, body, model) ==
-  /\ cur' = Upsert(cur, Row(NormAdd(title, ns), ns, redirect, body, model))
+AddPageP(title, ns, redirect, body, model, canon) ==
+  /\ cur' = Upsert(cur, Row(NormAddP(title, ns, canon), ns, redirect, body, model))
   /\ memo' = IF "MemoNotInvalidatedOnAdd" \in Dev THEN memo ELSE {}
   /\ UNCHANGED com
+AddPage(title, ns, redirect, body, model) == AddPageP(title, ns, redirect, body, model, CanonPfx)
 
 Lookup(title, ns, nr) ==
   /\ memo' = GetPage(Args(title, ns, nr)).memo
@@ -226,9 +228,10 @@ RefGetP(S, title0, ns, nr, pfxns, canon) ==
      ELSE NotFound
 RefGet(S, title0, ns, nr) == RefGetP(S, title0, ns, nr, PfxNs, CanonPfx)
 
-RefResolve(S, title0, ns) ==
-  LET r1 == RefGet(S, title0, ns, FALSE) IN
-  IF r1.found /\ r1.redirect # NoRedirect THEN RefGet(S, r1.redirect, ns, TRUE) ELSE r1
+RefResolveP(S, title0, ns, pfxns, canon) ==
+  LET r1 == RefGetP(S, title0, ns, FALSE, pfxns, canon) IN
+  IF r1.found /\ r1.redirect # NoRedirect THEN RefGetP(S, r1.redirect, ns, TRUE, pfxns, canon) ELSE r1
+RefResolve(S, title0, ns) == RefResolveP(S, title0, ns, PfxNs, CanonPfx)
 
 (* ------------------------------------------------------------------ *)
 (* bulk queries: get_all_pages / saved_page_nums (core.py:446-496,      *)
